@@ -13,7 +13,8 @@ VL == INSTANCE VerdictLib
 VARIABLES l, tid, sm, rd, accepts, ups, kinds, posts, hdls, sends, msgs, refusedOK, smKnown, dead, verdicts
 tvars == <<l, tid, sm, rd, accepts, ups, kinds, posts, hdls, sends, msgs, refusedOK, smKnown, dead, verdicts>>
 AddV(vs) == IF VL!Record(vs) THEN verdicts + Len(vs) ELSE verdicts
-V(clause, sig, detail) == [prop |-> "C13", clause |-> clause, sig |-> sig, tid |-> tid, idx |-> l, detail |-> detail]
+VP(prop, clause, sig, detail) == [prop |-> prop, clause |-> clause, sig |-> sig, tid |-> tid, idx |-> l, detail |-> detail]
+V(clause, sig, detail) == VP("C13", clause, sig, detail)
 Ev(x) == l <= Len(Trace) /\ Trace[l].ev = x
 E == Trace[l]
 Cnt(q, P(_)) == Cardinality({i \in 1..Len(q) : P(q[i])})
@@ -69,18 +70,25 @@ T_Quiet == /\ Ev("quietround")
            /\ smKnown' = ((sm /\ Len(ups) >= 1) \/ (smKnown /\ Len(ups) = 0))
            /\ l' = l + 1 /\ UNCHANGED <<tid, sm, rd, accepts, ups, kinds, posts, hdls, sends, msgs, refusedOK, dead>>
 T_RunRet == /\ Ev("runret")
-            /\ verdicts' = IF E.timely \/ dead THEN verdicts ELSE AddV(<<V("stop-makes-run-return", "stop", [round |-> rd])>>)
+            /\ verdicts' = IF E.timely \/ dead THEN verdicts ELSE AddV(<<V("stop-makes-run-return", E.when, [round |-> rd])>>)
             /\ l' = l + 1 /\ UNCHANGED <<tid, sm, rd, accepts, ups, kinds, posts, hdls, sends, msgs, refusedOK, smKnown, dead>>
 T_Crash == /\ Ev("crash") /\ verdicts' = AddV(<<V("nothing-panics", RSig, [msg |-> E.msg, round |-> rd])>>) /\ dead' = TRUE
            /\ l' = l + 1 /\ UNCHANGED <<tid, sm, rd, accepts, ups, kinds, posts, hdls, sends, msgs, refusedOK, smKnown>>
-T_Skip == /\ (Ev("fin") \/ Ev("note") \/ Ev("errcb") \/ Ev("run") \/ Ev("drop") \/ Ev("stop") \/ Ev("leak") \/ Ev("resumereq") \/ Ev("ping") \/ Ev("event"))
+\* C18 (shared trace): every session - also one re-established by the StreamManager - sends keepalives at the interval
+T_KaObs == /\ Ev("kaobs")
+           /\ verdicts' = IF dead \/ 4 * (E.pings + 1) * E.iv >= E.window THEN verdicts
+                          ELSE AddV(<<VP("C18", "keepalive-sent-at-the-interval-on-every-session", IF E.n = 1 THEN "first-session" ELSE "re-established-session",
+                                        [conn |-> E.n, window |-> E.window, interval |-> E.iv, pings |-> E.pings])>>)
+           /\ l' = l + 1 /\ UNCHANGED <<tid, sm, rd, accepts, ups, kinds, posts, hdls, sends, msgs, refusedOK, smKnown, dead>>
+
+T_Skip == /\ (Ev("fin") \/ Ev("stopinoutage") \/ Ev("note") \/ Ev("errcb") \/ Ev("run") \/ Ev("drop") \/ Ev("stop") \/ Ev("leak") \/ Ev("resumereq") \/ Ev("ping") \/ Ev("event"))
           /\ l' = l + 1 /\ UNCHANGED <<tid, sm, rd, accepts, ups, kinds, posts, hdls, sends, msgs, refusedOK, smKnown, dead, verdicts>>
 T_End == /\ Ev("end") /\ PrintT(<<"VERDICTS", ToJson(VL!All)>>) /\ PrintT(<<"CONSUMED", l>>)
          /\ l' = l + 1 /\ UNCHANGED <<tid, sm, rd, accepts, ups, kinds, posts, hdls, sends, msgs, refusedOK, smKnown, dead, verdicts>>
 TraceInit == /\ l = 1 /\ tid = 0 /\ sm = FALSE /\ rd = [i |-> 0, drop |-> "none", attempts |-> <<>>, resume |-> "accept"] /\ accepts = <<>> /\ ups = <<>>
              /\ kinds = <<>> /\ posts = 0 /\ hdls = <<>> /\ sends = <<>> /\ msgs = <<>> /\ refusedOK = TRUE /\ smKnown = FALSE /\ dead = FALSE
              /\ verdicts = 0 /\ VL!InitV
-TraceNext == T_Reset \/ T_Round \/ T_Accept \/ T_Neg \/ T_Up \/ T_Post \/ T_Hdl \/ T_Send \/ T_Msg \/ T_Refused \/ T_Quiet \/ T_RunRet
+TraceNext == T_Reset \/ T_KaObs \/ T_Round \/ T_Accept \/ T_Neg \/ T_Up \/ T_Post \/ T_Hdl \/ T_Send \/ T_Msg \/ T_Refused \/ T_Quiet \/ T_RunRet
              \/ T_Crash \/ T_Skip \/ T_End
 TraceSpec == TraceInit /\ [][TraceNext]_tvars
 =============================================================================
